@@ -348,8 +348,85 @@ def _mentions_local(body, node, name):
     return False
 
 
+PROPAGATORS = {"Context::context", "Context::with_context", "Result::map_err", "Result::map", "Result::and_then", "Result::or_else"}
+SWALLOWERS = {"Result::ok", "Result::unwrap_or_default", "Result::unwrap_or", "Result::unwrap_or_else", "Result::is_ok", "Result::is_err", "Result::err",
+              "Result::iter", "Result::into_iter"}
+
+
+def error_discipline(ctx, body, label):
+    """every Result produced by a call in `body` is propagated: `?` (Try::branch), returned, or wrapped by context/map_err and
+    then propagated. A `match`/`if let` whose Err edge continues, or .ok()/.unwrap_or*() on it, drops the error."""
+    from ..cfgq import explore
+    o = Origins(body)
+    back = body.back_edges()
+    n = 0
+    for bb, t in body.calls():
+        dest = t["dest"]
+        if dest["p"] or not body.lty(dest["l"]).startswith("std::result::Result<"):
+            continue
+        m = mname(t)
+        if m in ("Try::branch", "FromResidual::from_residual"):
+            continue
+        n += 1
+        # how is the value used?
+        l = dest["l"]
+        verdict = None
+        uses = []
+        for b2, t2 in body.calls():
+            for a in t2["args"]:
+                pl = a.get("move") or a.get("copy")
+                if pl is not None and body.canon_place(pl) == {"l": l, "p": []}:
+                    uses.append(mname(t2))
+        for m2 in uses:
+            if m2 in SWALLOWERS:
+                verdict = "the error is dropped through %s" % m2
+        # a discriminant switch directly on it
+        for sb, st in switches(body):
+            ve, rv = variant_edges(body, sb)
+            if ve is None or set(ve) != {"Ok", "Err"}:
+                continue
+            c = body.canon_place(rv["place"])
+            if c["l"] != l or c["p"]:
+                continue
+            reg = set(explore(body, ve["Err"], {place_key(rv["place"]): "Err"}, removed_edges=back).keys())
+            ok_reg = set(explore(body, ve["Ok"], {place_key(rv["place"]): "Ok"}, removed_edges=back).keys())
+            err_only = reg - ok_reg
+            returns_err = any(d[0] in err_only for d in body.defs.get(0, []))
+            continues = any(b in reg for (b, s2) in back) or any(body.blocks[b]["term"]["k"] == "return" for b in reg if b in ok_reg and not returns_err)
+            if not returns_err:
+                verdict = "its Err arm does not return an error (it continues with the next item)"
+        if not uses and verdict is None:
+            # never used at all (dropped) unless it is the function result
+            if not any(d[0] == bb for d in body.defs.get(0, [])) and not any(body.canon_place({"l": 0, "p": []}) == {"l": l, "p": []} for _ in [0]):
+                moved_to_ret = any(st["k"] == "assign" and st["lhs"]["l"] == 0 and not st["lhs"]["p"] and st["rv"]["k"] == "use" and
+                                   (st["rv"]["op"].get("move") or st["rv"]["op"].get("copy") or {}).get("l") == l
+                                   for blk in body.blocks for st in blk["stmts"])
+                sw = any(variant_edges(body, sb)[0] is not None and body.canon_place(variant_edges(body, sb)[1]["place"])["l"] == l for sb, _ in switches(body))
+                if not moved_to_ret and not sw:
+                    verdict = "the Result is never inspected"
+        key = "%s:%s#%d" % (label, (m or "call").split("::")[-1], n)
+        ctx.check(verdict is None, key, body.loc(bb), "the Result of %s is propagated (`?`, context + `?`, or returned)" % m,
+                  "the Result of %s is not propagated: %s - a document that cannot be read or parsed is skipped silently and the run does not exit with 1" % (m, verdict))
+    return n
+
+
+def r20_6(ctx):
+    prog = ctx.prog
+    total = 0
+    for anchor in ("FileParser::find_and_parse", "FileParser::find_all_test_files", "FileParser::read_test_contents", "file_parser::read_file"):
+        fs_ = prog.find_fns(anchor)
+        if not fs_:
+            fs_ = [b for b in prog.bodies if b.promoted is None and b.npath.endswith(anchor.split("::")[-1]) and "file_parser" in b.path]
+        if len(fs_) != 1:
+            raise AnchorError("anchor %s: found %d" % (anchor, len(fs_)))
+        total += error_discipline(ctx, fs_[0], fs_[0].name)
+    ctx.check(total >= 10, "discipline-floor", "-", "%d Result-producing calls analysed in the document discovery / reading layer" % total,
+              "only %d Result-producing calls found (10 confirmed by reading)" % total)
+
+
 def run(ctx):
     ctx.run_rule("R20.1", "order: prepend test cases, then the document's, then append's, unfiltered; one execute_all per document [E-FLOW]", r20_1, floor=5)
     ctx.run_rule("R20.3", "one output per test case: every continuing loop path of StatefulExecutor::execute_all pushes exactly one Output; Unknown pads; script executor count gate [E-STATE by segment enumeration]", r20_3, floor=4)
     ctx.run_rule("R20.4", "one outcome per non-detached test case, counted exactly once as failed (iff validate is Err) or succeeded; all zips positional [E-STATE]", r20_4, floor=7)
+    ctx.run_rule("R20.6", "error discipline in document discovery/reading: no Result from read_dir / read_test_contents / read_file / parse is dropped or logged-and-skipped [E-SITE]", r20_6, floor=10)
     ctx.run_rule("R20.5", "exit mapping: Err(ValidationFailedError) iff count_failed > 0; main: 50 / 1 / SUCCESS; no process::exit [E-SITE, E-TABLE]", r20_5, floor=5)
